@@ -213,6 +213,15 @@ func vfVTEvents(g vfGeom, printable []byte) []vfEvent {
 	return evs
 }
 
+// vfStreamEvents expands a repeated pattern into the first n event names (for replay files).
+func vfStreamEvents(pattern []vfEvent, n int) []string {
+	out := make([]string, n)
+	for i := range out {
+		out[i] = pattern[i%len(pattern)].name
+	}
+	return out
+}
+
 func vfVTInit(g vfGeom) *vfVTState {
 	s := &vfVTState{cons: vfNewGrid(g.W, g.H), ref: vfNewRef(g.W, g.H, g.SB, g.Tab)}
 	s.vt = *NewVT(g.Tab, g.SB)
@@ -421,6 +430,80 @@ func TestVerifVT(t *testing.T) {
 			complete = false
 		}
 	}
-	run.Finish(complete, fmt.Sprintf("fixed point of reachable states for every geometry with <=%d buffer cells (w,h in 1..4, scrollback 0..2, tab {0,1,2,5}; printable {a,b} up to %d cells) over events {a, CR, LF, BS, TAB, 'a\\n' Write, cursor moves to {0,1,2,dim,dim+1,2^32-1}^2, activate, deactivate}; plus 8 geometries with printable {a,b} to depth %d", maxCells, maxCells2, depth2),
+	// large geometries (the shipped 80x25 with scrollback 80 and tab 4; consoles wider than very wide tabs): structured
+	// streams - every ordered pair (triple on the smaller ones) of events repeated until the buffer has scrolled twice -
+	// compared with the reference after every event
+	type bigGeom struct {
+		g      vfGeom
+		triple bool
+	}
+	for _, bg := range []bigGeom{{vfGeom{80, 25, 80, 4}, false}, {vfGeom{90, 3, 2, 86}, true}, {vfGeom{300, 2, 1, 255}, true}, {vfGeom{87, 2, 0, 86}, true}, {vfGeom{132, 4, 3, 128}, true}, {vfGeom{129, 2, 1, 128}, true}, {vfGeom{40, 3, 1, 200}, true}} {
+		idx++
+		if !run.Mine(idx) {
+			continue
+		}
+		g := bg.g
+		evs := vfVTEvents(g, []byte{'a', 'b'})
+		var core []vfEvent
+		for _, e := range evs {
+			if strings.HasPrefix(e.name, "w") || e.name == "act" || e.name == "inact" || e.name == "c1,1" || e.name == fmt.Sprintf("c%d,%d", g.W, g.H) {
+				core = append(core, e)
+			}
+		}
+		runStream := func(pattern []vfEvent) {
+			s := vfVTInit(g)
+			var hist []string
+			limit := int(2*(g.H+g.SB)+3) * len(pattern)
+			if g.W*uint32(len(pattern)) > 0 {
+				// printable-only patterns need a whole line of events per line feed
+				limit = int(2*(g.H+g.SB)+3) * int(g.W+1)
+			}
+			if limit > 60000 {
+				limit = 60000
+			}
+			scrolls := 0
+			for i := 0; i < limit && scrolls < int(2*(g.H+g.SB)+2); i++ {
+				e := pattern[i%len(pattern)]
+				before := append([]vfCell(nil), s.cons.cells...)
+				prevVY, prevCY := s.ref.vy, s.ref.cy
+				var pan interface{}
+				func() {
+					defer func() { pan = recover() }()
+					e.f(s)
+				}()
+				hist = append(hist, e.name)
+				run.Case()
+				run.Transitions++
+				if class, desc := vfVTCheck(prop, s, g, e.name, before, pan); class != "" {
+					if len(hist) > 400 {
+						hist = hist[len(hist)-400:] // the replay file keeps the tail; the key carries the pattern
+					}
+					var pn []string
+					for _, pe := range pattern {
+						pn = append(pn, pe.name)
+					}
+					run.Violate(class, fmt.Sprintf("stream %dx%d sb%d tab%d pattern %s", g.W, g.H, g.SB, g.Tab, strings.Join(pn, " ")),
+						fmt.Sprintf("console %dx%d scrollback %d tab %d, pattern [%s] repeated, event %d: %s", g.W, g.H, g.SB, g.Tab, strings.Join(pn, " "), i, desc), vfVTReplay{g, vfStreamEvents(pattern, i+1)})
+					return
+				}
+				if s.ref.vy != prevVY || (s.ref.cy == prevCY && (e.name == "w0a")) {
+					scrolls++
+				}
+			}
+		}
+		for _, e1 := range core {
+			for _, e2 := range core {
+				runStream([]vfEvent{e1, e2})
+				if bg.triple {
+					for _, e3 := range core {
+						runStream([]vfEvent{e1, e2, e3})
+					}
+				}
+			}
+		}
+		run.States++
+		run.ForceSample(map[string]interface{}{"geometry": fmt.Sprintf("%dx%d scrollback %d tab %d", g.W, g.H, g.SB, g.Tab), "streams": "every ordered pair/triple of events repeated past two full scrolls"})
+	}
+	run.Finish(complete, fmt.Sprintf("fixed point of reachable states for every geometry with <=%d buffer cells (w,h in 1..4, scrollback 0..2, tab {0,1,2,5}; printable {a,b} up to %d cells) over events {a, CR, LF, BS, TAB, 'a\\n' Write, cursor moves to {0,1,2,dim,dim+1,2^32-1}^2, activate, deactivate}; plus 8 geometries with printable {a,b} to depth %d; plus structured streams (every ordered pair / triple of events repeated past two full scrolls) on 80x25/scrollback 80/tab 4 and six consoles wider than very wide tabs (86..255)", maxCells, maxCells2, depth2),
 		"BFS on the real tty.VT with snapshot cloning; distinct = (geometry, number of reachable states)")
 }
